@@ -174,7 +174,7 @@ func main() {
 		for _, v6 := range []bool{false, true} {
 			for _, rg := range registrants {
 				for _, gen := range []uint32{1, 2} {
-					for _, ov := range []string{"none", "port", "phantom"} {
+					for _, ov := range []string{"none", "port", "phantom", "v4-in-v6-slot", "v4mapped-in-v6-slot"} {
 						for si2, secret := range [][]byte{vfix.Secret(80), vfix.Secret(81)} {
 							if !e.Case() {
 								goto done
@@ -187,6 +187,10 @@ func main() {
 							switch ov {
 							case "port":
 								w.RegistrationResponse = &pb.RegistrationResponse{DstPort: proto.Uint32(8443)}
+							case "v4-in-v6-slot":
+								w.RegistrationResponse = &pb.RegistrationResponse{Ipv6Addr: net.ParseIP("198.51.100.7").To4(), DstPort: proto.Uint32(8443)}
+							case "v4mapped-in-v6-slot":
+								w.RegistrationResponse = &pb.RegistrationResponse{Ipv6Addr: net.ParseIP("198.51.100.7").To16(), DstPort: proto.Uint32(8443)}
 							case "phantom":
 								w.RegistrationResponse = &pb.RegistrationResponse{Ipv4Addr: proto.Uint32(0xC6336407), Ipv6Addr: net.ParseIP("2001:db8:1::7"), DstPort: proto.Uint32(8443)}
 							}
